@@ -194,7 +194,7 @@ PROPS = {
         "oracles": [
             {"bin": "oracle_c10", "quick": ("{seed}", "4000"), "thorough": ("{seed}", "20000"), "digest_twice": True, "second_args": ["rev"]},
         ],
-        "partial": ["analysis_only_adds_failure_partial: proved under the hypothesis hok that plain and analysed level runs agree at EVERY (priority value, call index) pair - stronger than 'the analysis succeeds at every attempted level' (an analysis failure at a level that is never attempted falsifies hok although the conclusion still holds); without any such hypothesis the statement is false of the code (known finding F10)",
+        "partial": ["analysis_only_adds_failure_partial: proved under the hypothesis hok that plain and analysed level runs agree at EVERY (priority value, call index) pair - stronger than 'the analysis succeeds at every attempted level'; analysis_only_adds_failure_levels needs the agreement only for the j-th level of the list at call index j (levels after the first unsatisfied one are still included, so an analysis failure at a level that is never attempted falsifies the hypothesis although the conclusion holds); without any such hypothesis the statement is false of the code (known finding F10)",
                     "'the text front-end's solve methods agree': the four methods (solve, solve_with_config, solve_with_config_analysis, solve_no_metadata) are not modelled separately - the model has one text pipeline; their agreement with each other and with the library is checked on the real code only (oracle_c10: default and five non-default configurations, most of which make the solve fail)",
                     "bit-reproducibility of faer and libm across processes is sampled (digest of all results compared between two fresh processes), not proved"],
         "rule": "planted, linear, contradictory, prioritised and collapsed-guess systems: two calls in one process and two fresh processes (digest) must agree bit for bit including the ordered warnings list; solve vs solve_analysis field by field; plus generated problem texts through the text front-end: solve() twice, solve_with_config, solve_with_config_analysis, solve_no_metadata and the library call on the same constraints and guesses must agree bit for bit (labelled values included)",
